@@ -97,13 +97,13 @@ var builtinFunctions = map[XmlName]Function{
 }
 
 func last(context Context, args ...Result) (Result, error) {
-	nodeSet, ok := context.Result().(NodeSet)
+	sized, ok := context.(interface{ ContextSize() int })
 
 	if !ok {
-		return nil, errQueryNonNodeset
+		return nil, fmt.Errorf("context size is not available")
 	}
 
-	return Number(len(nodeSet)) + 1, nil
+	return Number(sized.ContextSize()), nil
 }
 
 func position(context Context, args ...Result) (Result, error) {
